@@ -96,3 +96,204 @@ impl Execution {
         if t.is_runnable() { kani::any() } else { true }
     }
 }
+
+// ================================================================================================
+// C05 / C18 / C01.sched: Execution::schedule (real function, real Path, real object store)
+// ================================================================================================
+use crate::rt::path::verif_kani as pv;
+use crate::rt::thread::verif_kani as tv;
+use crate::rt::vv::verif_kani as vvk;
+use crate::{must_not_reach, oblige, reach};
+
+const SN: usize = 3;
+
+/// SN threads (symbolic states / clocks / pending operations on mutex 0 or 1), a path holding one
+/// earlier symbolic entry (position 0) and positioned at a NEW branch point, two mutex objects whose
+/// DPOR last-access records (if any) point at path position 0.
+fn schedule_exec() -> ManuallyDrop<Execution> {
+    let mut set = tv::any_set(SN);
+    tv::any_pending_ops(&mut set, |k| match k {
+        0 => None,
+        1 => Some(crate::rt::object::verif_kani::op_opaque(0)),
+        _ => Some(crate::rt::object::verif_kani::op_opaque(1)),
+    });
+    kani::assume(tv::wf_thread_ops(&set));
+    tv::assume_incrementable(&set);
+    let path = pv::any_path(1, 4);
+    let v = pv::path_view(&path);
+    kani::assume(pv::wf_path(&v) && v.pos == 1 && v.cap >= 2);
+    // the earlier branch was committed: if it is a schedule branch it has its active thread
+    if let pv::EntryView::Schedule { threads, .. } = v.entries[0] {
+        kani::assume(pv::count_of(&threads, pv::ACTIVE) == 1);
+    }
+    let mut ex = exec_with_path(ManuallyDrop::into_inner(set), ManuallyDrop::into_inner(path), 4);
+    ex.objects.insert(crate::rt::mutex::verif_kani::mutex_state_with_access(0));
+    ex.objects.insert(crate::rt::mutex::verif_kani::mutex_state_with_access(0));
+    ex
+}
+
+fn runnable(v: &tv::ThView) -> bool {
+    matches!(v.st, tv::StView::Runnable { .. })
+}
+
+fn schedule_body() {
+    let mut ex = schedule_exec();
+    let old = tv::set_view(&ex.threads);
+    let a = old.active.unwrap();
+    let oa = old.th[a];
+    let pold = pv::path_view(&ex.path);
+    let acc = [crate::rt::mutex::verif_kani::last_access_of(&ex, 0), crate::rt::mutex::verif_kani::last_access_of(&ex, 1)];
+    let n_run = runnable(&old.th[0]) as u8 + runnable(&old.th[1]) as u8 + runnable(&old.th[2]) as u8;
+    let n_yield = (old.th[0].st == tv::StView::Yield) as u8 + (old.th[1].st == tv::StView::Yield) as u8 + (old.th[2].st == tv::StView::Yield) as u8;
+    let all_term = old.th[0].st == tv::StView::Terminated && old.th[1].st == tv::StView::Terminated && old.th[2].st == tv::StView::Terminated;
+    // no-deadlock precondition; the deadlock report itself is c05_schedule_reports_deadlock
+    kani::assume(n_run + n_yield > 0 || all_term);
+
+    let ret = ex.schedule();
+
+    let new = tv::set_view(&ex.threads);
+    let pnew = pv::path_view(&ex.path);
+
+    // ---- (a) DPOR: backtrack points for every pending operation racing with the recorded access
+    let mut e0 = pold.entries[0];
+    let mut i = 0;
+    while i < SN {
+        let t = old.th[i];
+        if let Some((obj, _)) = t.op {
+            let rec = if obj == 0 { acc[0] } else { acc[1] };
+            if let Some((_pid, v)) = rec {
+                if !vvk::le(&v, &t.dpor_vv) {
+                    if matches!(e0, pv::EntryView::Schedule { exploring: true, .. }) {
+                        e0 = pv::spec_sched_backtrack(&e0, i, pold.bound);
+                    }
+                }
+            }
+        }
+        i += 1;
+    }
+    oblige!("C01.sched.backtrack_point_inserted_for_every_unordered_dependent_pending_operation", pnew.entries[0] == e0);
+
+    // ---- (b) choice of the thread to run first (C18: a yielded thread never beats a runnable one)
+    let mut initial: Option<usize> = None;
+    if runnable(&oa) {
+        initial = Some(a);
+    } else {
+        let mut i = 0;
+        while i < SN {
+            if runnable(&old.th[i]) {
+                match initial {
+                    Some(b) => {
+                        let tb = old.th[b];
+                        if old.th[i].yield_count < tb.yield_count {
+                            initial = Some(i);
+                        }
+                    }
+                    None => initial = Some(i),
+                }
+            }
+            i += 1;
+        }
+    }
+    let mut seed = [pv::DISABLED; crate::rt::MAX_THREADS];
+    let mut i = 0;
+    while i < SN {
+        seed[i] = if initial == Some(i) {
+            pv::ACTIVE
+        } else if old.th[i].st == tv::StView::Yield {
+            pv::YIELD
+        } else if !runnable(&old.th[i]) {
+            pv::DISABLED
+        } else {
+            pv::SKIP
+        };
+        i += 1;
+    }
+    if initial.is_none() {
+        if let Some(y) = pv::first_of(&seed, pv::YIELD) {
+            seed[y] = pv::ACTIVE; // only yielded threads left: one of them is re-activated (no false deadlock)
+        }
+    }
+    let next = pv::active_of(&seed).map(|x| x as usize);
+    oblige!("C18.sched.runnable_threads_take_priority_over_yielded_ones",
+        !(n_run > 0) || next.map(|x| runnable(&old.th[if x == 0 { 0 } else if x == 1 { 1 } else { 2 }])).unwrap_or(false));
+    oblige!("C05.sched.some_thread_is_scheduled_whenever_one_can_run", (n_run + n_yield > 0) == next.is_some());
+    oblige!("C05.sched.active_is_the_chosen_thread", new.active == next && new.len == old.len);
+    if let pv::EntryView::Schedule { threads, prev, exploring, .. } = pnew.entries[1] {
+        oblige!("C01.sched.new_branch_records_status_of_every_thread", threads == seed && exploring == pold.exploring
+            && prev == (if matches!(pold.entries[0], pv::EntryView::Schedule { .. }) { Some(0) } else { None }));
+    } else {
+        oblige!("C01.sched.new_branch_is_a_schedule_entry", false);
+    }
+    oblige!("C01.sched.path_advances_by_one_branch", pnew.len == 2 && pnew.pos == 2);
+    oblige!("C05.sched.returns_whether_a_switch_is_needed", ret == (next != Some(a)));
+
+    // ---- (d) DPOR clock of the scheduled thread, (e) yield re-activation, frame
+    let mut i = 0;
+    while i < SN {
+        let (o, n) = (old.th[i], new.th[i]);
+        let mut want_dpor = o.dpor_vv;
+        if next == Some(i) {
+            if let Some((obj, _)) = o.op {
+                let rec = if obj == 0 { acc[0] } else { acc[1] };
+                if let Some((_p, v)) = rec {
+                    want_dpor = vvk::join_of(&want_dpor, &v);
+                }
+                let mut w = want_dpor;
+                w.inc(tv::id_of(&ex.threads, i));
+                want_dpor = w;
+            }
+        }
+        oblige!("C01.sched.dpor_clock_of_scheduled_thread_joins_the_dependent_access_and_ticks", vvk::eq(&n.dpor_vv, &want_dpor));
+        let want_st = if o.st == tv::StView::Yield && next != Some(i) { tv::StView::Runnable { unparked: false } } else { o.st };
+        oblige!("C18.sched.other_yielded_threads_are_reactivated_nobody_else_changes_state", n.st == want_st);
+        oblige!("C05.sched.frame_thread_views", vvk::eq(&n.causality, &o.causality) && vvk::eq(&n.released, &o.released) && n.op == o.op
+            && n.yield_count == o.yield_count && n.last_yield == o.last_yield);
+        i += 1;
+    }
+    // set_last_access for the scheduled thread's pending operation: recorded at the pre-call path position
+    if let Some(nx) = next {
+        let t = if nx == 0 { old.th[0] } else if nx == 1 { old.th[1] } else { old.th[2] };
+        let tn = if nx == 0 { new.th[0] } else if nx == 1 { new.th[1] } else { new.th[2] };
+        if let Some((obj, _)) = t.op {
+            let rec_new = if obj == 0 { crate::rt::mutex::verif_kani::last_access_of(&ex, 0) } else { crate::rt::mutex::verif_kani::last_access_of(&ex, 1) };
+            oblige!("C01.sched.records_this_access_as_the_objects_last_access",
+                rec_new.map(|(p, v)| p == 1 && vvk::eq(&v, &tn.dpor_vv)) == Some(true));
+        }
+    }
+    reach!("c05_schedule");
+}
+
+//@ props=C05,C18,C01,C15 tier=quick timeout=2400 weight=heavy fns=src/rt/execution.rs::Execution::schedule,src/rt/object.rs::Store::last_dependent_access,src/rt/object.rs::Store::set_last_access,src/rt/mutex.rs::State::last_dependent_access,src/rt/mutex.rs::State::set_last_access,src/rt/thread.rs::Set::set_active,src/rt/path.rs::Path::branch_thread,src/rt/path.rs::Path::backtrack bounded=threads:N=3,path:depth=1,objects:2_mutexes models=VersionVec::join=s_vv_models_agree,Path::backtrack=c01_path_backtrack*,Schedule::active_thread_index=c15_schedule_preemptions
+#[kani::proof]
+#[kani::unwind(8)]
+#[kani::stub(std::hash::RandomState::new, crate::rt::thread::verif_kani::fixed_random_state)]
+#[kani::stub(crate::rt::vv::VersionVec::join, crate::rt::vv::VersionVec::join_model)]
+#[kani::stub(crate::rt::path::Schedule::active_thread_index, crate::rt::path::Schedule::active_thread_index_model)]
+#[kani::stub(crate::rt::path::Path::backtrack, crate::rt::path::Path::backtrack_model)]
+fn c05_schedule_n3() {
+    schedule_body();
+}
+
+//@ props=C05 tier=quick timeout=2400 weight=heavy fns=src/rt/execution.rs::Execution::schedule bounded=threads:N=3,path:depth=1 expect_panic=deadlock
+#[kani::proof]
+#[kani::unwind(8)]
+#[kani::stub(std::hash::RandomState::new, crate::rt::thread::verif_kani::fixed_random_state)]
+#[kani::stub(crate::rt::vv::VersionVec::join, crate::rt::vv::VersionVec::join_model)]
+#[kani::stub(crate::rt::path::Schedule::active_thread_index, crate::rt::path::Schedule::active_thread_index_model)]
+#[kani::stub(crate::rt::path::Path::backtrack, crate::rt::path::Path::backtrack_model)]
+fn c05_schedule_reports_deadlock() {
+    // no thread can take a step (none Runnable, none Yield) and at least one has not finished
+    let mut ex = schedule_exec();
+    let old = tv::set_view(&ex.threads);
+    let mut any_can_run = false;
+    let mut all_term = true;
+    let mut i = 0;
+    while i < SN {
+        any_can_run = any_can_run || runnable(&old.th[i]) || old.th[i].st == tv::StView::Yield;
+        all_term = all_term && old.th[i].st == tv::StView::Terminated;
+        i += 1;
+    }
+    kani::assume(!any_can_run && !all_term);
+    let _ = ex.schedule();
+    must_not_reach!("C05.sched.deadlock_goes_unreported");
+}
